@@ -36,7 +36,7 @@ pub mod sync {
             }
         }
         pub fn get_mut(&mut self) -> Option<&mut T> {
-            if self.complete.with_mut(|b| *b) {
+            if unsafe { self.complete.unsync_load() } {
                 self.value.get_mut().as_mut()
             } else {
                 None
